@@ -62,8 +62,11 @@ async def main():
     # broadcast stub so that fund(broadcast=True) keeps outputs reserved like a real broadcast
     async def fake_broadcast(tx): return True
     ledger.broadcast=fake_broadcast
-    txA, txB = await asyncio.gather(build_A(), build_B())
-    inA={txi.txo_ref.id for txi in txA.inputs}; inB={txi.txo_ref.id for txi in txB.inputs}
+    txA, txB = await asyncio.gather(build_A(), build_B(), return_exceptions=True)
+    for n, t in (('A', txA), ('B', txB)):
+        if isinstance(t, Exception): print(n, "refused:", type(t).__name__)
+    inA=set() if isinstance(txA, Exception) else {txi.txo_ref.id for txi in txA.inputs}
+    inB=set() if isinstance(txB, Exception) else {txi.txo_ref.id for txi in txB.inputs}
     print("A inputs:", len(inA), "B inputs:", len(inB), "SHARED:", len(inA&inB), sorted(inA&inB))
     print("REPRODUCED" if inA&inB else "not reproduced")
     await ledger.db.close()
